@@ -15,6 +15,6 @@ timeout 3000 make -j16 -C coq
 mkdir -p .work/setup
 sed "s#=> /repo#=> ${VERIF_REPO:-/repo}#" harness/go.mod > .work/setup/go.mod
 cp "${VERIF_REPO:-/repo}/go.sum" .work/setup/go.sum
-(cd harness && timeout 900 go build -tags verif -modfile ../.work/setup/go.mod -o ../.work/setup/harness .)
+(cd harness && timeout 900 go build -tags 'verif allprops' -modfile ../.work/setup/go.mod -o ../.work/setup/harness .)
 rm -rf .work/setup
 echo setup ok
